@@ -325,6 +325,45 @@ func (g *Gen) Hostile() (kind string, body []byte) {
 		b["criteria"] = cs
 		return "many-criteria", JSONBytes(b)
 	}
+	if r.Bool(0.06) {
+		// a key spelt with other letter case (decoders of nested parameters match keys ignoring
+		// case): beside the properly spelt key with another value, or instead of it. Whatever the
+		// service makes of it, it has to make the same of it every time
+		b := CloneJ(q.Body).(map[string]interface{})
+		var nodes []treeNode
+		var keys []string
+		var vals []interface{}
+		collectNodes(b, "", func(interface{}) {}, &nodes, &keys, &vals)
+		var objs []treeNode
+		for _, nd := range nodes {
+			if nd.obj != nil && len(nd.obj) > 0 && (strings.Contains(nd.path, "methodParameters") || strings.Contains(nd.path, "biases")) {
+				objs = append(objs, nd)
+			}
+		}
+		if len(objs) > 0 {
+			nd := objs[r.Intn(len(objs))]
+			ks := sortedKeys(nd.obj)
+			k := ks[r.Intn(len(ks))]
+			variant := caseVariant(r, k)
+			if variant != k {
+				v := CloneJ(nd.obj[k])
+				if f, ok := v.(float64); ok {
+					v = f + float64(r.Range(1, 7))
+				} else if r.Bool(0.5) && len(ks) > 1 {
+					v = CloneJ(nd.obj[ks[r.Intn(len(ks))]])
+				}
+				if r.Bool(0.3) {
+					delete(nd.obj, k)
+				}
+				nd.obj[variant] = v
+				short := nd.path
+				if len(short) > 40 {
+					short = short[len(short)-40:]
+				}
+				return "case-variant-key:" + short + "." + variant, JSONBytes(b)
+			}
+		}
+	}
 	switch r.Intn(27) {
 	case 22, 23, 24, 25, 26:
 		// a field at ANY depth gets a value of another JSON type (custom decoding of nested values
@@ -581,4 +620,27 @@ func mutateTree(r *Rand, root map[string]interface{}) string {
 		nd.set(pool())
 		return "replace(" + short + ")"
 	}
+}
+
+// caseVariant flips the case of one letter of k (k itself when it has no letter).
+func caseVariant(r *Rand, k string) string {
+	var idx []int
+	for i := 0; i < len(k); i++ {
+		c := k[i]
+		if (c >= 'a' && c <= 'z') || (c >= 'A' && c <= 'Z') {
+			idx = append(idx, i)
+		}
+	}
+	if len(idx) == 0 {
+		return k
+	}
+	b := []byte(k)
+	if r.Bool(0.3) {
+		i := idx[0]
+		b[i] ^= 0x20 // first letter: Weights, RandomSeed - the spelling of the Go field
+		return string(b)
+	}
+	i := idx[r.Intn(len(idx))]
+	b[i] ^= 0x20
+	return string(b)
 }
